@@ -161,6 +161,7 @@ type world struct {
 	its       []ethdb.Iterator
 	itDone    []bool
 	trace     []string
+	window    [2][2]bool // batch slots holding a range deletion while the LevelDB class is gated
 	excluded  int
 	nontriv   map[string]bool
 	stepCount int
@@ -402,7 +403,7 @@ func (w *world) actPut(view int) {
 	o := kvop{kind: 0, key: w.drawKey("key", view), val: w.drawValue()}
 	w.logf("%s.%s", viewName(view), o)
 	for _, b := range w.backends {
-		if b.active {
+		if b.kv != nil {
 			if err := b.view(view).Put(o.key, o.val); err != nil {
 				w.fail("%s/%s: Put error %v", b.name, viewName(view), err)
 			}
@@ -417,7 +418,7 @@ func (w *world) actDelete(view int) {
 	o := kvop{kind: 1, key: w.drawKey("key", view)}
 	w.logf("%s.%s", viewName(view), o)
 	for _, b := range w.backends {
-		if b.active {
+		if b.kv != nil {
 			if err := b.view(view).Delete(o.key); err != nil {
 				w.fail("%s/%s: Delete error %v", b.name, viewName(view), err)
 			}
@@ -443,7 +444,7 @@ func (w *world) actDeleteRange(view int) {
 	w.logf("%s.%s", viewName(view), o)
 	w.noteRange(view, o)
 	for _, b := range w.backends {
-		if b.active {
+		if b.kv != nil {
 			if err := b.view(view).DeleteRange(bound(o.key, o.hasStart), bound(o.end, o.hasEnd)); err != nil {
 				w.fail("%s/%s: %s error %v", b.name, viewName(view), o, err)
 			}
@@ -498,18 +499,17 @@ func (w *world) actBatchAdd(view, slot int) {
 	}
 	if o.kind == 2 {
 		w.nontriv["info:batch-range-deletion"] = true
-		if vs.Known(testName, knownLevelBatchRangeEager) {
-			for _, b := range w.backends {
-				if b.name == "leveldb" && b.active {
-					b.active = false // this backend leaves the lock-step for the rest of the case
-					w.excluded++
-				}
-			}
+		if vs.Known(testName, knownLevelBatchRangeEager) && !w.window[view][slot] {
+			// known finding: LevelDB keeps executing every action but is not compared from
+			// here until this batch is written or reset; then its content is reconciled
+			w.window[view][slot] = true
+			w.excluded++
+			w.suspendLevel()
 		}
 	}
 	w.logf("%s.batch%d.%s", viewName(view), slot, o)
 	for i, b := range w.backends {
-		if !b.active {
+		if b.kv == nil {
 			continue
 		}
 		bt := w.batches[i][view][slot]
@@ -564,13 +564,14 @@ func (w *world) actBatchWrite(view, slot int) {
 		w.m.apply(w.viewPrefix(view), o)
 	}
 	for i, b := range w.backends {
-		if !b.active {
+		if b.kv == nil {
 			continue
 		}
 		if err := w.batches[i][view][slot].Write(); err != nil {
 			w.fail("%s/%s: batch Write error %v", b.name, viewName(view), err)
 		}
 	}
+	w.closeWindow(view, slot)
 	w.mutated()
 	w.checkAll("after batch write")
 	// callers reset a written batch before reusing it
@@ -583,7 +584,7 @@ func (w *world) actBatchReset(view, slot int) {
 	}
 	w.logf("%s.batch%d.Reset()", viewName(view), slot)
 	for i, b := range w.backends {
-		if !b.active || w.batches[i][view][slot] == nil {
+		if w.batches[i][view][slot] == nil {
 			continue
 		}
 		bt := w.batches[i][view][slot]
@@ -593,6 +594,68 @@ func (w *world) actBatchReset(view, slot int) {
 		}
 	}
 	w.batchOps[view][slot] = nil
+	w.closeWindow(view, slot)
+}
+
+func (w *world) level() (int, *backend) {
+	for i, b := range w.backends {
+		if b.name == "leveldb" {
+			return i, b
+		}
+	}
+	return -1, nil
+}
+
+// suspendLevel takes LevelDB out of the comparisons (it still executes everything).
+func (w *world) suspendLevel() {
+	i, b := w.level()
+	if b == nil || !b.active {
+		return
+	}
+	b.active = false
+	if w.its[i] != nil {
+		w.its[i].Release()
+		w.its[i] = nil
+	}
+	w.logf("[leveldb suspended: batch range deletion pending]")
+}
+
+// closeWindow ends the suspension caused by one batch slot; when no slot is left
+// LevelDB's content is reconciled with the model and it rejoins the lock-step.
+func (w *world) closeWindow(view, slot int) {
+	if !w.window[view][slot] {
+		return
+	}
+	w.window[view][slot] = false
+	for v := range w.window {
+		for s := range w.window[v] {
+			if w.window[v][s] {
+				return
+			}
+		}
+	}
+	_, b := w.level()
+	if b == nil || b.active {
+		return
+	}
+	it := b.kv.NewIterator(nil, nil)
+	var stale [][]byte
+	for it.Next() {
+		if v, ok := w.m[string(it.Key())]; !ok || !bytes.Equal(v, it.Value()) {
+			stale = append(stale, append([]byte{}, it.Key()...))
+		}
+	}
+	it.Release()
+	for _, k := range stale {
+		b.kv.Delete(k)
+	}
+	for k, v := range w.m {
+		if has, _ := b.kv.Has([]byte(k)); !has {
+			b.kv.Put([]byte(k), v)
+		}
+	}
+	b.active = true
+	w.logf("[leveldb reconciled (%d stale keys) and back in the lock-step]", len(stale))
 }
 
 // recorder is a KeyValueWriter (+range deleter) that records what is replayed into it.
@@ -658,7 +721,7 @@ func (w *world) actBatchReplay(view, slot int) {
 		return
 	}
 	for i, b := range w.backends {
-		if !b.active {
+		if b.kv == nil {
 			continue
 		}
 		nb := b.view(view).NewBatch()
@@ -812,7 +875,7 @@ func (w *world) actReopen() {
 		}
 	}
 	for _, b := range w.backends {
-		if b.name == "memorydb" || !b.active {
+		if b.name == "memorydb" {
 			continue
 		}
 		if err := b.kv.Close(); err != nil {
@@ -824,6 +887,11 @@ func (w *world) actReopen() {
 		}
 		b.kv = kv
 		b.tab = rawdb.NewTable(rawdb.NewDatabase(kv), w.prefix)
+	}
+	for v := range w.window {
+		for s := range w.window[v] {
+			w.closeWindow(v, s)
+		}
 	}
 	w.checkAll("after reopen")
 }
